@@ -1042,6 +1042,20 @@ func ruleSelfRename(c *Ctx, id string) {
 			}
 			break
 		}
+		// the comparison itself must be reached when source and target are in one directory: it may sit behind a
+		// test of the two directory inodes, then on the side where they are the same
+		wrongSide := guardedBy(ren, br.Block, func(cd Cond) (bool, bool) {
+			if (cd.Op != token.EQL && cd.Op != token.NEQ) || cd.X == nil || cd.Y == nil {
+				return false, false
+			}
+			if derefNamed(cd.X.Type()) != V.Inode || derefNamed(cd.Y.Type()) != V.Inode || isNilConst(cd.X) || isNilConst(cd.Y) {
+				return false, false
+			}
+			return true, cd.Op == token.NEQ
+		})
+		if wrongSide {
+			ok, why = false, "the comparison is made only where the two directories differ"
+		}
 		R.Analysed[FuncName(ren)] = true
 		R.Check(ok, id, fmt.Sprintf("NFSPROC3_RENAME|same object: no update#%d", n), P.Pos(br.Block.Instrs[len(br.Block.Instrs)-1].Pos()), "where source and target name the same inode the handler returns without touching the directories", "constant path to a return", why+": RENAME x -> x goes on as if another object were replaced - it removes the target name and unlinks its inode, the very file being renamed: an acknowledged RENAME deletes the file")
 	}
